@@ -12,7 +12,7 @@ use num_integer::Integer;
 use num_traits::{One, Signed, ToPrimitive, Zero};
 use rayon::prelude::*;
 use serde_json::{json, Value};
-use std::collections::{BTreeMap, HashSet};
+use std::collections::BTreeMap;
 
 type SApp = App<BankKeeper, MockApi, SnapStorage>;
 
@@ -782,7 +782,7 @@ pub fn explore(ctx: &Ctx, nm: &Names, alpha: &[SOp], max_depth: usize, cfg: &Cfg
     let b0 = app0.block_info();
     app0.set_block(b0.clone());
     let root = SState { storage: app0.storage().clone(), block: b0, hidden: Hidden::default(), obs: obs0, path: vec![] };
-    let mut seen: HashSet<u128> = HashSet::new();
+    let seen = KeySet::new();
     seen.insert(state_key(&root));
     let mut frontier = vec![root.clone()];
     let mut out = ExpOut { states: 1, transitions: 0, depth: 0, layers: vec![1], replays: 0, ok: 0, err: 0, tolerated: 0, caps: vec![], samples: vec![], all: vec![root] };
@@ -800,12 +800,21 @@ pub fn explore(ctx: &Ctx, nm: &Names, alpha: &[SOp], max_depth: usize, cfg: &Cfg
             out.caps.push(format!("stopped after depth {} because violations were found (breadth-first: they are shortest ones)", out.depth));
             break;
         }
-        let results: Vec<Vec<(Option<SState>, bool, bool)>> = frontier
+        let mem_stop = std::sync::atomic::AtomicBool::new(false);
+        let results: Vec<(Vec<SState>, u64, u64, u64)> = frontier
             .par_chunks(16)
             .map(|ch| {
                 let mut app = build(nm, cfg.funds);
                 let mut v = vec![];
+                let (mut n_ok, mut n_err, mut n_tol) = (0u64, 0u64, 0u64);
                 for s in ch {
+                    if mem_stop.load(std::sync::atomic::Ordering::Relaxed) {
+                        break;
+                    }
+                    if rss_gb() > 1.5 * rss_cap_gb() {
+                        mem_stop.store(true, std::sync::atomic::Ordering::Relaxed);
+                        break;
+                    }
                     for op in alpha {
                         let mut rep = |class: &str, detail: Value| {
                             if home(&prop, class) {
@@ -813,30 +822,35 @@ pub fn explore(ctx: &Ctx, nm: &Names, alpha: &[SOp], max_depth: usize, cfg: &Cfg
                             }
                         };
                         let r = step(&mut app, nm, s, op, cfg, alpha, &mut rep);
-                        v.push((r.next, r.ok, r.tolerated_err));
+                        if r.ok {
+                            n_ok += 1
+                        } else {
+                            n_err += 1
+                        }
+                        if r.tolerated_err {
+                            n_tol += 1
+                        }
+                        if let Some(s) = r.next {
+                            if seen.insert(state_key(&s)) {
+                                v.push(s);
+                            }
+                        }
                     }
                 }
-                v
+                (v, n_ok, n_err, n_tol)
             })
             .collect();
         let mut next = vec![];
-        for v in results {
-            for (s, ok, tol) in v {
-                out.transitions += 1;
-                if ok {
-                    out.ok += 1
-                } else {
-                    out.err += 1
-                }
-                if tol {
-                    out.tolerated += 1
-                }
-                if let Some(s) = s {
-                    if seen.insert(state_key(&s)) {
-                        next.push(s);
-                    }
-                }
-            }
+        for (v, n_ok, n_err, n_tol) in results {
+            out.transitions += n_ok + n_err;
+            out.ok += n_ok;
+            out.err += n_err;
+            out.tolerated += n_tol;
+            next.extend(v);
+        }
+        if mem_stop.load(std::sync::atomic::Ordering::Relaxed) {
+            out.caps.push(format!("resident-memory guard hit inside depth {}: that layer is incomplete", out.depth + 1));
+            break;
         }
         out.depth += 1;
         out.layers.push(next.len() as u64);
